@@ -82,8 +82,8 @@ pub fn decode_mutations(bytes: &[Word]) -> Result<Vec<Mutation>, MutationDecodeE
     // Saturating cast
     let len: usize = bytes[0].try_into().unwrap_or(usize::MAX);
 
-    // FIXME: Do a max size check to avoid a DoS attack that allocates too much memory.
-    let mut mutations = Vec::with_capacity(len);
+    // The length is untrusted: never allocate more than the input could possibly encode.
+    let mut mutations = Vec::with_capacity(len.min(bytes.len() / 2));
     if len == 0 {
         return Ok(mutations);
     }
